@@ -67,7 +67,7 @@ def logical_input(rng):
         cut = m['multi_string'].index('}.{')
         c = dict(kind='multilevel', base_string=m['multi_string'][:cut + 1], frag_string=m['multi_string'][cut + 2:], features=m['features'])
     else:
-        a = ambig.random_case(rng, coarse=False)
+        a = ambig.random_case(rng, coarse=False, prefer=('WT', 'WH', 'WG', 'HT', 'NA') if rng.random() < 0.5 else ())
         if a is None:
             return None
         cut = a['string'].index('}.{')
@@ -124,7 +124,17 @@ def resolve_presentation(p, shared):
     elif p['ctor'] == 'from_graph_of_string':
         r = MoleculeResolver.from_graph(p['frag_string'], cgsmiles.read_cgsmiles(p['base_string']), **kw)
     else:
-        r = MoleculeResolver.from_fragment_dicts(p['base_string'], shared.get(p['frag_string']), **kw)
+        lib = shared.get(p['frag_string'])
+        before = [{name: contracts.snap_graph(g) for name, g in d.items()} for d in lib]
+        try:
+            r = MoleculeResolver.from_fragment_dicts(p['base_string'], lib, **kw)
+            cg, aa = r.resolve_all()
+        finally:
+            after = [{name: contracts.snap_graph(g) for name, g in d.items()} for d in lib]
+            if after != before:
+                contracts.rec('C12', 'c12.library_modified', f'the fragment dictionaries handed to from_fragment_dicts for {p["base_string"]}.{p["frag_string"]} were changed by constructing / resolving')
+                shared.dicts.pop(p['frag_string'], None)
+        return util.canonical_dump(cg) + '\n' + util.canonical_dump(aa)
     cg, aa = r.resolve_all()
     return util.canonical_dump(cg) + '\n' + util.canonical_dump(aa)
 
